@@ -129,12 +129,17 @@ func (dps *DefaultPathStrategy) GetRequestInfo(urlCtx base.UrlContext, rootOutPa
 		ri.FileNameWithPath = filepath.Join(rootOutPath, ri.StreamName, filename)
 	}
 
+	// `/hls/...m3u8` or `/hls/..-1-2.ts` would otherwise be mapped to the parent of rootOutPath
+	if !base.IsPlainPathElement(ri.StreamName) {
+		return RequestInfo{}
+	}
+
 	return
 }
 
 // GetMuxerOutPath <rootOutPath>/<streamName>
 func (*DefaultPathStrategy) GetMuxerOutPath(rootOutPath string, streamName string) string {
-	return filepath.Join(rootOutPath, streamName)
+	return filepath.Join(rootOutPath, base.StreamNameAsPathElement(streamName))
 }
 
 func (*DefaultPathStrategy) GetLiveM3u8FileName(outPath string, streamName string) string {
@@ -150,7 +155,7 @@ func (*DefaultPathStrategy) GetTsFileNameWithPath(outPath string, fileName strin
 }
 
 func (*DefaultPathStrategy) GetTsFileName(streamName string, index int, timestamp int) string {
-	return fmt.Sprintf("%s-%d-%d.ts", streamName, timestamp, index)
+	return fmt.Sprintf("%s-%d-%d.ts", base.StreamNameAsPathElement(streamName), timestamp, index)
 }
 
 func (*DefaultPathStrategy) getStreamNameFromTsFileName(fileName string) string {
